@@ -29,7 +29,7 @@ def oracle(s, r):
         for j in range(nt):
             line[idx[i, j]] = i if i < C else 1000 + j
     same = line[:, None] == line[None, :]
-    for strat in sorted(k[2:] for k in r if k.startswith("A_") and not k.endswith("_affdev")):
+    for strat in sorted(k[2:] for k in r if k.startswith("A_") and not k.endswith(("_affdev", "_linx", "_liny"))):
         A = ol.dense(r["A_" + strat])
         AII = A[np.ix_(free, free)]
         scI = sc[free]
